@@ -4,9 +4,11 @@ C12 - the 1-D intensity of an oriented model is the orientational average of its
 Space: every oriented model x shape parameter sets (defaults; every single shape ("volume") parameter
 scaled by a small and by a large factor; in the thorough tier also by their squares, and every pair of
 them scaled, 2 x 2 factor combinations) x q with q*size in {0.1, 0.5, 1, 2, 5, 10, 20}, size = cube root of the form volume.
-Two base sets per model: the defaults, and (where it differs) the "activated" base in which every non-SLD,
-non-orientation parameter whose default 0 switches an effect off gets a non-zero value inside its limits
-(stacked_disks sigma_d, ..._belt_rough sigma) and every count-like parameter with default 1 (n_stacking) is 3;
+Two base sets per model: the defaults, and the "activated" base in which every SLD-type parameter (solvent
+included) gets a distinct value so that no contrast term cancels (core_shell_cylinder defaults have
+sld_core = sld_shell), every non-SLD, non-orientation parameter whose default 0 switches an effect off gets a
+non-zero value inside its limits (stacked_disks sigma_d, ..._belt_rough sigma) and every count-like parameter
+with default 1 (n_stacking) is 3;
 the volume-parameter moves are applied on top of both.
 One case = one (model, base, parameter set); the q values are looped inside.
 
@@ -50,7 +52,7 @@ FACTORS = [(0.25, 4.0), (0.3, 3.3), (0.2, 5.0), (0.35, 2.8), (0.27, 3.7), (0.22,
 QTWEAK = [1.0, 1.07, 0.93, 1.13, 0.88, 1.03, 0.97, 1.1]
 LADDER = {"quick": [24, 48, 96, 192], "thorough": [24, 48, 96, 192, 384]}
 BOUNDS = {
-    "quick": {"models": "all 21 oriented models", "parameter_sets": "bases {defaults, activated: zero-default parameters non-zero, counts = 3} x "
+    "quick": {"models": "all 21 oriented models", "parameter_sets": "bases {defaults, activated: all SLDs distinct, zero-default parameters non-zero, counts = 3} x "
                                 "(unchanged + each volume parameter x {1/4, 4}, seed-rotated)",
               "q*size": QSIZE, "ladder": LADDER["quick"], "ref_tol": 1e-7, "model_tol": 1e-6, "verdict_tol": 1e-5},
     "thorough": {"models": "all 21 oriented models",
@@ -95,6 +97,8 @@ def setup(ctx):
 ACT_LENGTH = (5.0, 3.0, 8.0, 4.0, 6.5, 2.5, 7.0, 3.5)          # Ang: zero-default lengths (roughness, ...)
 ACT_PLAIN = (0.3, 0.2, 0.4, 0.25, 0.35, 0.15, 0.45, 0.28)       # dimensionless zero-default parameters
 ACT_COUNT = 3.0
+# distinct, unevenly spaced SLDs (1e-6/Ang^2): no contrast term (sld_a - sld_b) vanishes and no two contrasts are equal
+ACT_SLD = (1.0, 2.7, 5.3, 6.1, 8.9, 9.6, 12.2, 13.1, 15.8, 16.4)
 
 
 def is_count(p):
@@ -108,9 +112,19 @@ def activated(info, ctx):
     """
     the "activated" base: every non-SLD, non-orientation parameter whose default 0 switches an effect off gets a
     representative non-zero value inside its limits (seed-rotated), every count-like parameter with default 1 is
-    raised to 3.  Returns {name: value}; empty if the model has no such parameter.
+    raised to 3, and every SLD-type parameter (solvent included) gets a DISTINCT value (seed-rotated), so that no
+    contrast term cancels the way it may at the defaults (core_shell_cylinder: sld_core = sld_shell = 4).
+    Returns {name: value}.
     """
     out = {}
+    slds = [p for p in info.parameters.kernel_parameters if p.type == "sld" and p.length == 1]
+    if len(slds) > len(ACT_SLD):
+        raise HarnessError("%s: more SLD parameters than prepared distinct values" % info.id)
+    for k, p in enumerate(slds):
+        v = ACT_SLD[(k + ctx.seed) % len(ACT_SLD)]
+        if not p.limits[0] <= v <= p.limits[1]:
+            raise HarnessError("%s: SLD value %g outside the limits of %s" % (info.id, v, p.name))
+        out[p.name] = float(v)
     for k, p in enumerate(info.parameters.kernel_parameters):
         if p.type in ("sld", "orientation", "magnetic") or p.length != 1:
             continue
@@ -270,6 +284,9 @@ def run_case(case, ctx):
         br = ["hollow"] if shell != form else []
         if base == "activated":
             br.append("activated-base")
+            sv = [pars[pp.name] for pp in info.parameters.kernel_parameters if pp.type == "sld"]
+            if len(sv) >= 2 and len(set(sv)) == len(sv):
+                br.append("all-SLDs-distinct")
         if not np.isfinite(I1[k]) or I1[k] <= 0:
             r.inconc("model-not-finite-positive")
             continue
@@ -315,6 +332,7 @@ def finish(ctx, report):
     report.require("hollow", 20, "hollow shapes (shell volume != form volume)")
     report.require("F2-checked", 150, "<F^2> from call_Fq compared")
     report.require("ladder-refined", 20, "reference needed more than the first two ladder orders")
-    report.require("activated-base", 30, "decidable points on the base with zero-default / count-like parameters activated")
+    report.require("activated-base", 300, "decidable points on the base with zero-default / count-like parameters activated")
+    report.require("all-SLDs-distinct", 300, "decidable points with every SLD (solvent included) different from every other")
     report.require("gauss-switch:150", 100, "model re-integrated with the 150-point table")
     report.require("gauss-switch:76", 1, "model with a native 150-point table re-integrated with 76 points")
